@@ -281,6 +281,11 @@ struct BigInt {
             --index;
             Add(DoubleSize<Number_T, TypeWidth()>::Multiply(storage_[index], multiplier), (index + 1U));
         } while (index != 0U);
+
+        // A zero multiplier leaves only zero words.
+        while ((index_ > 0U) && (storage_[index_] == 0)) {
+            --index_;
+        }
     }
     ////////////////////////////////////////////////////
     inline Number_T Divide(const Number_T divisor) noexcept {
